@@ -145,6 +145,14 @@ fn sections(t: CTy, tier: Tier) -> Vec<(String, Section)> {
     let r = |n: &'static str| CE::Ref(n);
     let bx = Box::new;
     let mut out: Vec<(String, Section)> = vec![("ext".into(), vec![("A", a())]), ("lit".into(), vec![("A", CE::Lit(2))]), ("lit0".into(), vec![("A", CE::Lit(0))]), ("ext;ref".into(), vec![("A", a()), ("B", r("A"))])];
+    // names that meet: two parties supply a value of the same name; a supplied value has the name of a
+    // constant of the program (declared before or after it)
+    let qa = || CE::Ext("Q", "A");
+    out.push(("A=P::A;B=Q::A".into(), vec![("A", a()), ("B", qa())]));
+    out.push(("B=Q::A;A=P::A".into(), vec![("B", qa()), ("A", a())]));
+    out.push(("A=lit;B=P::A".into(), vec![("A", CE::Lit(2)), ("B", a())]));
+    out.push(("B=P::A;A=lit".into(), vec![("B", a()), ("A", CE::Lit(2))]));
+    out.push(("A=Q::B;B=P::A".into(), vec![("A", b()), ("B", a())]));
     if t == CTy::Bool {
         return out;
     }
